@@ -141,8 +141,10 @@ def fd_bookkeeping(ctx):
     env['t1'] = spec_term(ev, 't0 + 1.0', env)
     ctx.ob('C16.O2', fi.short, f't\' = t + 1 [{alg}]', cmpr.same(new['t'], env['t1']), f'round counter must advance by one; got `{cmpr.fmt(new["t"])}`', ctx.loc(fi), sample='t += 1')
     B = S.args[1][0]
-    exp_B = spec_term(ev, f"(P0 * e0.reshape(-1, 1)).at[-1].set(g.ravel() * ({spec['sketch']}))", env)
-    ctx.ob('C16.O2', fi.short, f'sketch input [{alg}]', cmpr.same(B, exp_B),
+    # e is a vector: e.reshape(-1, 1), e[:, None] and expand_dims(e, 1) are the same column
+    exp_Bs = [spec_term(ev, f"(P0 * {col}).at[-1].set(g.ravel() * ({spec['sketch']}))", env)
+              for col in ('e0.reshape(-1, 1)', 'e0[:, None]', 'jnp.expand_dims(e0, 1)')]
+    ctx.ob('C16.O2', fi.short, f'sketch input [{alg}]', any(cmpr.same(B, eb) for eb in exp_Bs),
            f'the factored matrix must be P * e with the LAST row set to g * {spec["sketch"]}; got `{cmpr.fmt(B)[:240]}`', ctx.loc(fi),
            sample=f'B = (P e).at[-1].set(g * {spec["sketch"]})')
     exp_alpha = spec_term(ev, f'alpha0 + {spec["alpha"]} * s[-1] ** 2', env)
